@@ -17,3 +17,10 @@ GROUPS = [
  _t("type_para_store", "COTParaStore", "co_para_store.c", 4, 1, 1, None, {"C17": "quick", "C06": "quick", "C01": "quick"}, ["a", "b"]),
  _t("type_para_restore", "COTParaRestore", "co_para_restore.c", 4, 1, 2, None, {"C17": "quick", "C06": "quick", "C01": "quick"}, ["a", "b"]),
 ]
+GROUPS += [
+ _t("type_hb_prod", "COTNmtHbProd", "co_hb_prod.c", 2, 2, 0, None, {"C10": "quick", "C06": "quick", "C01": "quick"}, ["a", "b"]),
+ _t("type_sync_id", "COTSyncId", "co_sync_id.c", 4, 4, 0, None, {"C16": "quick", "C06": "quick", "C01": "quick"}, ["a", "b"]),
+ _t("type_emcy_hist_size", "COTEmcyHist", "co_emcy_hist.c", 4, 1, 0, None, {"C15": "quick", "C06": "quick", "C01": "quick"}, ["a", "b"]),
+]
+GROUPS[-1]["defs"].append("VW_SIZE_ONLY")      # Read / Write / Init of 1003h are the emcy_hist_* groups
+GROUPS[-1]["fn"] = "COTEmcyHistSize"
